@@ -62,7 +62,7 @@ def subgraph_lit(g):
             raise OutOfScope("external initializer")
         if i.data_type in (TP.FLOAT, TP.INT64) and len(i.dims) <= 1 and nh.to_array(i).nbytes > 64:
             raise OutOfScope("long rank-1 initializer (payload digested)")
-        consts.append(f'(Node "" "Constant" [] [{cstr(i.name)}] [("value", {M._tensor_attr_lit(i)})] [])')
+        consts.append(f'(Node {cstr("")} {cstr("Constant")} [] [{cstr(i.name)}] [({cstr("value")}, {M._tensor_attr_lit(i)})] [])')
     return (f"(Graph {clist([i.name for i in g.input], cstr)} {clist([i.name for i in g.initializer], cstr)} "
             f"{clist(consts + [node_lit(n) for n in g.node])} {clist([o.name for o in g.output], cstr)})")
 
@@ -84,6 +84,11 @@ def nested_initializers(proto):
 
 
 def graph_lit(proto):
+    lit = _graph_lit(proto)
+    return f"(ph_graph {lit})" if M.ph_reserved() else lit  # Export/Placeholders.v: the reserved-placeholder variant
+
+
+def _graph_lit(proto):
     if isinstance(proto, onnx.ModelProto):
         g = proto.graph
         if proto.functions or g.sparse_initializer:
@@ -413,7 +418,7 @@ def model_rename_sequence(proto, opts):
             for x in n.input:
                 ref(x)
             return
-        for o in n.output:
+        for o in M.outputs_with_placeholders(n):
             var(o)
         for x in n.input:
             ref(x)
@@ -470,6 +475,12 @@ def in_scope(case, opts):
     vr = VR.detect()
     if opts["rename"] and is_model and proto.graph.initializer and not (vr["init_raw_key"] and vr["sig_renamed"]):
         raise OutOfScope("rename=True on a model with initializers (the twice-renamed Constant needs the mapper's state)")
+    if opts["inline_const"] and is_model:
+        from harness import c13_subinit as SI
+        if SI.reuse_features(proto)["inline_reused"]:
+            # Export/EmitCF.v computes the dictionary of inlined constants BEFORE the emission (one entry per name); the exporter
+            # fills it while it walks: a name bound in two sibling graphs, once as an inlined constant, is left to the oracle
+            raise OutOfScope("inline_const: a name bound in two graphs, once as an inlined constant (dictionary computed before the emission)")
     M.init_collision_guard(proto)
     graph_lit(proto)
     ivals_lit(proto)
@@ -506,8 +517,8 @@ def coq_terms(case, opts, prelude=None, tag="0"):
         shim = NS(graph=NS(initializer=[], node=proto.node, output=[NS(name=o) for o in proto.output], input=[]))
         seq2 = model_rename_sequence(shim, opts)
         attrs = clist(list(proto.attribute), cstr)
-        prelude.append(f"Definition au{tag} : list string := Eval vm_compute in (map {ren} {clist(seq, cstr)}).")
-        prelude.append(f"Definition am{tag} := Eval vm_compute in (attr_map {ren} {attrs} au{tag} {clist(seq2, cstr)}).")
+        prelude.append(f"Definition au{tag} : list string := Eval vm_compute in (map {ren} {clist(seq, M.cname)}).")
+        prelude.append(f"Definition am{tag} := Eval vm_compute in (attr_map {ren} {attrs} au{tag} {clist(seq2, M.cname)}).")
         ren = f"(attr_apply {ren} {attrs} am{tag})"
     # C13_01: a model graph is translated inside a remapping scope, like a function body
     return pre, ren, f"(cleanup kwlist {cstr(raw_name)})", ivals_lit(proto), graph_lit(proto), cbool(not is_model or VR.detect()["model_scope"])
@@ -556,7 +567,7 @@ def coq_body(items):
 
 
 OKB = "nested_okb"
-REQUIRES = ["OV.Gen.ExportTables", "OV.Export.Cleanup", "OV.Export.Unique", "OV.Graph.Syntax", "OV.Script.Syntax", "OV.Export.Emit", "OV.Export.EmitCF", "OV.Export.RoundTripClass", "OV.Export.EmitOpts", "OV.Export.AttrNames", "OV.Export.SubInits"]
+REQUIRES = ["OV.Gen.ExportTables", "OV.Export.Cleanup", "OV.Export.Unique", "OV.Graph.Syntax", "OV.Script.Syntax", "OV.Export.Emit", "OV.Export.EmitCF", "OV.Export.RoundTripClass", "OV.Export.EmitOpts", "OV.Export.AttrNames", "OV.Export.SubInits", "OV.Export.Placeholders"]
 
 
 # ----------------------------------------------------------------------------------------------- hand-made nested models
